@@ -161,6 +161,24 @@ def run(case):
             F.append(Finding("oracle", "no_spurious_nan", cc, f"field {i}: {int(np.isnan(v).sum())} NaN in the scores of NaN-free new data"))
             return {"findings": F, "info": {}}
         fulls.append(v)
+    # cross-set models: each field is a per-sample map of ITS OWN new data — a field transformed alone, or next to a partner with
+    # other samples, gives the same labelled result
+    if zoo.kind(cls) in ("cross", "rot_cross") and n_new >= 2:
+        Xn, Yn = new
+        try:
+            alone = [m.transform(X=Xn, **kw), m.transform(Y=Yn, **kw)]
+            Xa = sel_samples((Xn, Yn), slice(0, 1), mi)[0]
+            mixed = m.transform(X=Xa, Y=Yn, **kw)
+            cand = [("alone", 0, alone[0]), ("alone", 1, alone[1]), ("partner-with-other-samples", 1, mixed[1])]
+            for what, i, t in cand:
+                checks += 1
+                v, tl = as_time_mode(t, mi)
+                if len(tl) != len(want_t) or not np.array_equal(tl, want_t):
+                    F.append(Finding("oracle", "transform_labels", cc + "|field-" + what, f"field {i} transformed {what}: labelled {tl[:5]}... ({len(tl)} samples), its data are labelled {want_t[:5]}... ({len(want_t)})"))
+                elif relerr(v, fulls[i]) > 1e-9:
+                    F.append(Finding("oracle", "transform_row_local", cc + "|field-" + what, f"field {i} transformed {what} differs from the joint transform by rel {relerr(v, fulls[i]):.2e}"))
+        except Exception as e:  # noqa: BLE001
+            F.append(Finding("oracle", "transform_labels", cc + "|field-separately|raises", f"{type(e).__name__}: {str(e)[:160]}"))
     # concat property: transform(A ++ B) == transform(A) ++ transform(B), for splits of the new data
     if n_new >= 2:
         splits = list(range(1, n_new)) if case.get("all_splits") else sorted(set(int(x) for x in rng.integers(1, n_new, size=3)))
